@@ -4,9 +4,11 @@ import Iodata.Drv.Conv
 import Iodata.Drv.Helpers
 import Iodata.Drv.Select
 import Iodata.Drv.Inputs
+import Iodata.Drv.Traj
 
 def handlers : List (List String → Option String) :=
-  [Iodata.Drv.Conv.handle, Iodata.Drv.Helpers.handle, Iodata.Drv.Select.handle, Iodata.Drv.Inputs.handle]
+  [Iodata.Drv.Conv.handle, Iodata.Drv.Helpers.handle, Iodata.Drv.Select.handle, Iodata.Drv.Inputs.handle,
+   Iodata.Drv.Traj.handle]
 
 def respond (line : String) : String :=
   let ws := (line.splitOn " ").filter (· ≠ "")
